@@ -80,6 +80,37 @@ NLongSeqs == IF Thorough THEN 20000 ELSE 300
 LongSeqAt(j) ==
   LET len == 4 + PrngNat(K("dl", <<j>>), 4)
   IN  TItem("domain_long", DedupDomainDoc([i \in 1..len |-> 1 + PrngNat(K("dc", <<j, i>>), 11)]))
+\* NEAR-MISS types of the standard members: spellings that a lenient comparison could take for the standard type -
+\* other case, blanks, leading zeros, a sign, neighbouring widths, array forms, synonyms, and widths that ALIAS the
+\* standard width when the number is truncated to 8, 16, 32 or 64 bits (256 + 2^k, 32 + 2^k).  The value conforms
+\* to the standard type, so only the type rule can refuse.
+NearMiss == <<
+  <<"string", "String", "STRING", "string ", " string", "bytes", "string[]", "string[1]", "str", "string1", "string0", "char[]", "text">>,
+  <<"String", "string\n", "string\t", "bytes", "strings", "string[]", "stringstring", "string256", "utf8", "bytes32">>,
+  <<"uint", "uint255", "uint248", "uint264", "uint0256", "uint 256", "Uint256", "UINT256", "int256", "uint256[]", "uint256[1]",
+    "uint512", "uint65792", "uint4294967552", "uint18446744073709551872", "uint256 ", " uint256", "uint+256", "uint2560", "uint25",
+    "u256", "bytes32", "number", "uint256_t", "uint-256", "uint1256", "uint25 6", "uint8", "uint128", "uint256x">>,
+  <<"Address", "ADDRESS", "address payable", "address[]", "address[1]", "bytes20", "uint160", "address ", " address", "addres", "addresss",
+    "address20", "contract", "bytes">>,
+  <<"bytes", "bytes31", "bytes33", "bytes032", "Bytes32", "BYTES32", "bytes32[]", "bytes32[1]", "uint256", "bytes288", "bytes65568",
+    "bytes4294967328", "bytes18446744073709551648", "byte32", "bytes 32", "bytes32 ", " bytes32", "bytes+32", "bytes320", "bytes3", "byte[32]">> >>
+StdValue(m) ==
+  IF m \in {1, 2} THEN NStr("v" \o ToString(m)) ELSE IF m = 3 THEN NNum("1")
+  ELSE IF m = 4 THEN NHexBytes(Rep(20, 204)) ELSE NHexBytes(Rep(32, 5))
+NearMissOffsets == [m \in 1..6 |-> IF m = 1 THEN 0 ELSE Len(NearMiss[1]) + (IF m > 2 THEN Len(NearMiss[2]) ELSE 0) + (IF m > 3 THEN Len(NearMiss[3]) ELSE 0)
+                                    + (IF m > 4 THEN Len(NearMiss[4]) ELSE 0) + (IF m > 5 THEN Len(NearMiss[5]) ELSE 0)]
+NNearMiss == 2 * NearMissOffsets[6]
+NearMissAt(j) ==
+  LET full == j > NearMissOffsets[6]                      \* alone / inside the complete five-member domain
+      k    == IF full THEN j - NearMissOffsets[6] ELSE j
+      m    == CHOOSE q \in 1..5 : NearMissOffsets[q] < k /\ k <= NearMissOffsets[q + 1]
+      ty   == NearMiss[m][k - NearMissOffsets[m]]
+      ms   == IF full THEN <<1, 2, 3, 4, 5>> ELSE <<m>>
+  IN  TItem("domain_near_miss",
+            Doc(<< <<"EIP712Domain", TypeDef([i \in 1..Len(ms) |-> Member(StdNames[ms[i]], IF ms[i] = m THEN ty ELSE StdTypes[ms[i]])])>>,
+                   <<"M", TypeDef(<<Member("x", "uint256")>>)>> >>,
+                "M", NObj([i \in 1..Len(ms) |-> <<StdNames[ms[i]], StdValue(ms[i])>>]), NObj(<< <<"x", NNum("7")>> >>)))
+
 NoDomainTypeDoc ==
   TItem("domain_missing", Doc(<< <<"M", TypeDef(<<Member("x", "uint256")>>)>> >>, "M", NObj(<<>>), NObj(<< <<"x", NNum("7")>> >>)))
 
